@@ -33,6 +33,9 @@ def check(ctx):
   c07.r6(ctx, cls)
   r4(ctx)
   r5(ctx)
+  from . import c10
+  ctx.rule('C10.R1', 'shared with C10: the timer never fires before the stored deadline (quantisation rounds up), which the serial transports\' expiry check relies on')
+  c10.r1(ctx, prog.func('scales/timer_queue.py', 'TimerQueue.Schedule'))
 
 
 def r2(ctx):
@@ -199,12 +202,29 @@ def r5(ctx):
       ctx.ob('C12.R5', sl, 'a timed-out frame is not written', not w and ex[0] in ('continue',), 'skip path writes %d, exit %s' % (len(w), ex[0]), why)
   ctx.floor('C12.R5', 'write paths of the send loop', nw, 1)
   # the callback: pops Tag.KEY and discards that tag
-  cbs = list(ht.nested.values())
+  subs = [c for c in walk_no_nested(ht.node) if isinstance(c, ast.Call) and call_attr(c) == 'Subscribe']
+  cb, cprops = None, props
+  if len(subs) == 1 and subs[0].args:
+    a = subs[0].args[0]
+    inner = a.body if isinstance(a, ast.Lambda) else a
+    if isinstance(inner, ast.Call) and (dotted(inner.func) or '').split('.')[-1] == 'partial' and inner.args:
+      tgt, bound = inner.args[0], inner.args[1:]
+    elif isinstance(inner, ast.Call):
+      tgt, bound = inner.func, inner.args
+    else:
+      tgt, bound = inner, []
+    if isinstance(tgt, ast.Name) and tgt.id in ht.nested:
+      cb = ht.nested[tgt.id]
+    elif isinstance(tgt, ast.Attribute) and U(tgt.value) == 'self' and ht.cls is not None:
+      m = prog.lookup_method(ht.cls, tgt.attr)
+      if m is not None:
+        cb = m
+        idx = [i for i, b in enumerate(bound) if U(b) == props]
+        cprops = m.params[1 + idx[0]] if idx and len(m.params) > 1 + idx[0] else None
   ok = False
-  if len(cbs) == 1:
-    cb = cbs[0]
+  if cb is not None and cprops is not None:
     pops = [st for st in walk_no_nested(cb.node) if isinstance(st, ast.Assign) and isinstance(st.value, ast.Call) and call_attr(st.value) == 'pop' and 'Tag.KEY' in U(st.value)
-            and U(st.value.func.value) == props]
+            and U(st.value.func.value) == cprops]
     ot = [c for c in walk_no_nested(cb.node) if isinstance(c, ast.Call) and call_attr(c) == '_OnTimeout']
     ok = len(pops) == 1 and len(ot) == 1 and [U(a) for a in ot[0].args] == [U(pops[0].targets[0])]
     if ok:
@@ -215,9 +235,6 @@ def r5(ctx):
       ok = guarded
     rel = [c for c in ast.walk(cb.node) if isinstance(c, ast.Call) and call_attr(c) in ('_ReleaseTag', 'release')]
     ctx.ob('C12.R5', cb, 'the timeout callback does not release the tag of a request already on the wire', not rel, 'callback releases the tag', 'the tag stays reserved until the peer answers or acknowledges the discard (C11)')
-    subs = [c for c in walk_no_nested(ht.node) if isinstance(c, ast.Call) and call_attr(c) == 'Subscribe']
-    oks = len(subs) == 1 and subs[0].args and ((isinstance(subs[0].args[0], ast.Lambda) and cb.name + '(' in U(subs[0].args[0].body)) or U(subs[0].args[0]) == cb.name)
-    ok = ok and oks
   ctx.ob('C12.R5', ht, 'the subscribed callback takes the tag off the message and discards exactly that tag', ok, 'callback shape changed', why)
   # ThriftMux: discard message names the tag and is sent through the transport
   ot = prog.func(TM, 'SocketTransportSink._OnTimeout')
